@@ -174,6 +174,45 @@ pub enum FaultKind {
     AbortReply,
     /// a bare completion 06 0F 00 where the exchange needs a completion with content (system-info reply)
     EmptyCompletion,
+    /// the i-th of a list of well-formed packets, used only where it lies outside the exchange's reply set
+    Unexpected(u8),
+}
+
+/// Well-formed packets a terminal could send; each is a fault only where the reply set does not contain it.
+pub const UNEXPECTED: [&[u8]; 7] = [
+    &[0x06, 0x1e, 0x01, 0x6f],
+    &[0x06, 0x0f, 0x00],
+    &[0x04, 0xff, 0x01, 0x17],
+    &[0x04, 0x0f, 0x02, 0x27, 0x00],
+    &[0x06, 0xd1, 0x02, 0x00, 0x41],
+    &[0x04, 0x01, 0x0a, 0xaa, 0x00, 0x04, 0x05, 0x0c, 0x22, 0x55, 0x58],
+    &[0x80, 0x00, 0x00],
+];
+
+fn stream_of(cmd: Cmd) -> Option<&'static str> {
+    Some(match cmd {
+        Cmd::Registration => "Registration",
+        Cmd::SystemInfo => "feig::GetSystemInfo",
+        Cmd::SetTerminalId => "SetTerminalId",
+        Cmd::Initialization => "Initialization",
+        Cmd::Reservation => "Reservation",
+        Cmd::PartialReversal | Cmd::PendingQuery => "PartialReversal",
+        Cmd::PreAuthReversal => "PreAuthReversal",
+        Cmd::EndOfDay => "EndOfDay",
+        Cmd::ReadCard => "ReadCard",
+        Cmd::Other => return None,
+    })
+}
+
+/// Is packet `pkt` outside what the client may receive at this point of the exchange?
+fn is_unexpected(schema: &Schema, cmd: Cmd, reply_idx: usize, pkt: &[u8]) -> bool {
+    if reply_idx == 0 {
+        return pkt != ACK;
+    }
+    let Some(name) = stream_of(cmd) else { return false };
+    let sd = refcodec::tables::STREAMS.iter().find(|s| s.name == name).unwrap();
+    let e = refcodec::tables::reply_enum(sd.replies);
+    !e.variants.iter().any(|(_, key)| schema.get(key).cf == Some((pkt[0], pkt[1])))
 }
 
 #[derive(Clone, Debug, PartialEq)]
@@ -687,6 +726,11 @@ fn next_tx_action(sh: &mut Shared, cmd: Cmd, reply_idx: usize, conn: usize) -> T
             if f.kind == FaultKind::EmptyCompletion && (cmd != Cmd::SystemInfo || reply_idx != 1 || sh.log.iter().any(|e| e.conn == conn && e.dir == Dir::Vetted)) {
                 continue;
             }
+            if let FaultKind::Unexpected(i) = f.kind {
+                if !is_unexpected(&sh.schema, cmd, reply_idx, UNEXPECTED[i as usize % UNEXPECTED.len()]) {
+                    continue;
+                }
+            }
             let kind = f.kind;
             if matches!(f.at, At::PointOnce(..)) {
                 sh.fired.push(fi);
@@ -811,6 +855,9 @@ async fn serve(shared: SharedRef, mut io: DuplexStream, conn: usize) {
                         }
                         FaultKind::EmptyCompletion => {
                             let _ = io.write_all(&[0x06, 0x0f, 0x00]).await;
+                        }
+                        FaultKind::Unexpected(i) => {
+                            let _ = io.write_all(UNEXPECTED[i as usize % UNEXPECTED.len()]).await;
                         }
                         FaultKind::Silence | FaultKind::Refuse | FaultKind::ConnectStall => {}
                     }
